@@ -249,7 +249,9 @@ def run_impl(case):
     row = [[trg] or [] per created object, pending, src.i]."""
     from amaranth_soc import event
     modes = case["cfg"]["modes"]
-    objs = [event.Source(trigger=MODES[m], path=(f"s{i}",)) for i, m in enumerate(modes)]
+    # the trigger mode is accepted as a string or as the enum member: alternate between the two spellings
+    objs = [event.Source(trigger=(MODES[m] if i % 2 == 0 else event.Source.Trigger(MODES[m])), path=(f"s{i}",))
+            for i, m in enumerate(modes)]
     ident = {id(o): i for i, o in enumerate(objs)}
     em = event.EventMap()
     cnt = [0]
